@@ -450,8 +450,7 @@ def all_schedules(make_coro: Callable[[], Any], limit: int, **kw: Any) -> Iterat
 
 def space_size(run: Run) -> int:
     """product of the branching factors along one run (= size of the schedule space when the gate structure does not
-    depend on the schedule, which holds in rounds mode for everything explored here; only used to pick between
-    exhaustive enumeration and seeded sampling)."""
+    depend on the schedule; only an estimate otherwise, used to pick between exhaustive enumeration and sampling)."""
     size = 1
     for n in run.branching:
         size *= n
@@ -464,9 +463,10 @@ def explore(make_coro: Callable[[], Any], limit: int, rng: random.Random, **kw: 
     first = run_scheduled(make_coro, **kw)
     if space_size(first) <= limit:
         runs = list(all_schedules(make_coro, limit + 1, **kw))
-        if len(runs) > limit:
-            raise HarnessError("schedule space larger than its estimate")
-        return runs, True
+        if len(runs) <= limit:
+            return runs, True
+        # the decision tree is not uniform (steps mode: the number of blocked gates depends on earlier choices) and
+        # larger than estimated along the default path: sample instead
     runs = [first]
     seen = {tuple(first.decisions)}
     attempts = 0
